@@ -307,6 +307,9 @@ def run_history(base, ops, check_idempotent=True):
             rejected.append((i, op, "%s: %s" % (type(e).__name__, str(e)[:160]), fr))
             # a query / solve that raises on a well-posed specification is itself an observation
             if op[0] in ("query", "solve"):
+                fresh_now = fresh_observation(d)
+                if "error" in fresh_now:
+                    continue      # the current specification is rejected by a fresh Ocp as well (e.g. collocation-point constraints under a shooting method)
                 vios.append(dict(sig="exception:%s:%s" % (op[0], fr or type(e).__name__), detail="op %d %s raised %s: %s" % (i, op, type(e).__name__, str(e)[:200]), ops_prefix=i + 1))
                 return dict(violations=vios, rejected=len(rejected), final=d)
             continue
